@@ -241,7 +241,8 @@ def g3_shape(ctx):
                         src = it[len("enumerate("):-1]
                         sds = [dv for st_, dv in astx.defs_of(f.node, src) if dv is not None]
                         # types / indices sampled with size = the same count (every definition)
-                        good = bool(sds) and all(f"num_ballots={sz}" in astx.u(sd) or f"size={sz}" in astx.u(sd) for sd in sds)
+                        good = bool(sds) and all(any(isinstance(c_, ast.Call) and any(astx.u(v) == sz for v in list(c_.args) + [k.value for k in c_.keywords])
+                                                     for c_ in ast.walk(sd)) for sd in sds)
                     szd = astx.unique_def(f.node, sz) if re.fullmatch(r"\w+", sz) else size
                     good = good and szd is not None and ("ballots_per_" in astx.u(szd) or "voters" in astx.u(szd))
                 ctx.check(good, f, st, f"{f.short}: the bloc's pool has its apportioned size and every slot is filled", d, f"pool handling is `{d}`")
